@@ -257,6 +257,23 @@ bool Gen::emitOp(const std::vector<std::string>& ops, const std::vector<int>& po
         for (int f : pool) if (pred(P.forests[size_t(f)])) c.push_back(f);
         return c.empty() ? -1 : c[R.below(uint32_t(c.size()))];
     };
+    // sometimes the result edge IS an operand edge (x += y, apply(OP, x, y, x), apply(OP, x, x)): the
+    // library's own compound operators use that form
+    auto emitBin = [&](const std::string& op, int a, int b, int dst, int fc) {
+        Step st{"bin", op, num(a), num(b), num(dst), num(fc)};
+        if (R.chance(12)) {
+            const bool ca = slots[size_t(a)].f == fc, cb = slots[size_t(b)].f == fc;
+            if (a == b && ca && R.chance(40)) st.push_back("iab");
+            else if (ca && (!cb || R.chance(50))) st.push_back("ia");
+            else if (cb) st.push_back("ib");
+        }
+        emit(st);
+    };
+    auto emitUn = [&](const std::string& op, int a, int dst, int fc) {
+        Step st{"un", op, num(a), num(dst), num(fc)};
+        if (slots[size_t(a)].f == fc && R.chance(12)) st.push_back("inplace");
+        emit(st);
+    };
     for (int attempt = 0; attempt < 6; attempt++) {
         const std::string& op = ops[R.below(uint32_t(ops.size()))];
         if (isSetOp(op)) {
@@ -268,7 +285,7 @@ bool Gen::emitOp(const std::vector<std::string>& ops, const std::vector<int>& po
             int fc = pickForest(same);
             if (b < 0 || fc < 0) continue;
             int dst = freeSlot();
-            emit({"bin", op, num(a), num(b), num(dst), num(fc)});
+            emitBin(op, a, b, dst, fc);
             setLive(dst, fc);
             return true;
         }
@@ -279,7 +296,7 @@ bool Gen::emitOp(const std::vector<std::string>& ops, const std::vector<int>& po
             int fc = pickForest([&](const FSpec& s) { return s.range == 'B' && s.label == 'M' && s.rel == A.rel && s.dom == A.dom; });
             if (fc < 0) continue;
             int dst = freeSlot();
-            emit({"un", op, num(a), num(dst), num(fc)});
+            emitUn(op, a, dst, fc);
             setLive(dst, fc);
             return true;
         }
@@ -292,7 +309,7 @@ bool Gen::emitOp(const std::vector<std::string>& ops, const std::vector<int>& po
             int fc = pickForest([&](const FSpec& s) { return s.range == 'B' && s.label == 'M' && s.rel && s.dom == A.dom; });
             if (b < 0 || fc < 0) continue;
             int dst = freeSlot();
-            emit({"bin", op, num(a), num(b), num(dst), num(fc)});
+            emitBin(op, a, b, dst, fc);
             setLive(dst, fc);
             return true;
         }
@@ -314,7 +331,7 @@ bool Gen::emitOp(const std::vector<std::string>& ops, const std::vector<int>& po
             }
             if (b < 0) continue;
             int dst = freeSlot();
-            emit({"bin", op, num(a), num(b), num(dst), num(fc)});
+            emitBin(op, a, b, dst, fc);
             setLive(dst, fc);
             return true;
         }
@@ -326,7 +343,7 @@ bool Gen::emitOp(const std::vector<std::string>& ops, const std::vector<int>& po
             int fc = pickForest([&](const FSpec& s) { return s.label == 'M' && s.rel == A.rel && s.dom == A.dom; });
             if (b < 0 || fc < 0) continue;
             int dst = freeSlot();
-            emit({"bin", op, num(a), num(b), num(dst), num(fc)});
+            emitBin(op, a, b, dst, fc);
             setLive(dst, fc);
             return true;
         }
@@ -337,7 +354,7 @@ bool Gen::emitOp(const std::vector<std::string>& ops, const std::vector<int>& po
             int fc = pickForest([&](const FSpec& s) { return s.range == 'I' && s.label == 'M' && s.rel == A.rel && s.dom == A.dom; });
             if (fc < 0) continue;
             int dst = freeSlot();
-            emit({"un", op, num(a), num(dst), num(fc)});
+            emitUn(op, a, dst, fc);
             setLive(dst, fc);
             return true;
         }
@@ -348,7 +365,7 @@ bool Gen::emitOp(const std::vector<std::string>& ops, const std::vector<int>& po
             int fc = pickForest([&](const FSpec& s) { return s.label != 'X' && s.rel == A.rel && s.dom == A.dom; });
             if (fc < 0) continue;
             int dst = freeSlot();
-            emit({"un", op, num(a), num(dst), num(fc)});
+            emitUn(op, a, dst, fc);
             setLive(dst, fc);
             return true;
         }
@@ -361,7 +378,7 @@ bool Gen::emitOp(const std::vector<std::string>& ops, const std::vector<int>& po
             else fc = pickForest([&](const FSpec& s) { return s.range == A.range && s.label != 'X' && s.rel == A.rel && s.dom == A.dom; });
             if (fc < 0) continue;
             int dst = freeSlot();
-            emit({"un", op, num(a), num(dst), num(fc)});
+            emitUn(op, a, dst, fc);
             setLive(dst, fc);
             return true;
         }
